@@ -217,7 +217,7 @@ func runC18(c *Ctx) {
 			for _, a := range errAtoms {
 				assertAtoms["assert[*SMTPError]("+a+")#0"] = true
 			}
-			idxRe := regexp.MustCompile(`^Client\.rcpts\[\(builtin:len\(Client\.rcpts\) - loopvar:expectedResponses@for\.loop#\d+\)\]$`)
+			idxRe := regexp.MustCompile(`^Client\.rcpts\[\(builtin:len\(Client\.rcpts\) - loopvar:int@for\.loop#\d+\)\]$`)
 			if rangeShape {
 				idxRe = regexp.MustCompile(`^Client\.rcpts\[\(loopvar:rangeindex@rangeindex\.loop#\d+ \+ 1\)\]$`)
 			}
